@@ -288,10 +288,11 @@ class Net(object):
         self.connections = 0
         self.log = []
 
-    def pair(self, peername=('192.0.2.10', 25), chooser=None, chunked=False, capacity=None):
+    def pair(self, peername=('192.0.2.10', 25), chooser=None, chunked=False, capacity=None, capacity_back=None):
         a, b = _Dir(), _Dir()
         a.chunked = b.chunked = chunked
         b.cap = capacity            # client -> server direction
+        a.cap = capacity_back       # server -> client direction (a client that does not read its replies)
         client = VSocket(a, b, 'client%d' % self.connections, self, peername, chooser)
         server = VSocket(b, a, 'server%d' % self.connections, self, ('192.0.2.20', 40000), chooser)
         client.peer, server.peer = server, client
